@@ -1091,4 +1091,144 @@ theorem EncodePackedSInt32_refines (fuel : Nat) (hf : 10 ≤ fuel) (p : Bytes) (
         store_panic p _ _ (by simp only [List.length_append]; omega)
       simp only [hst, EncOut.ofRes, s1bad h1]
 
+/-! ## `EncodePackedBool`: the element count as length prefix, one indexed store per element -/
+
+abbrev EB := Encoder_EncodePackedBool.St
+def bindB : EB → Bool → EB := (fun s x => { s with v := x })
+def boolBody : EB → Go.Out EB Unit :=
+  (Go.seq (fun s => if s.v then (fun s => if ((s.e_offset).toNat < s.e_p.length) then .next { s with e_p := Go.wr s.e_p (s.e_offset).toNat 1#8 } else .panic) s else (fun s => if ((s.e_offset).toNat < s.e_p.length) then .next { s with e_p := Go.wr s.e_p (s.e_offset).toNat 0#8 } else .panic) s)
+    (fun s => .next { s with e_offset := (s.e_offset + 1#64) }))
+
+theorem wr_bool (q : Bytes) (i : Nat) (x : Bool) (h : i < q.length) :
+    Go.wr q i (if x then 1#8 else 0#8) = writeAt q i [boolByte x] := by
+  unfold Go.wr
+  rw [set_writeAt _ _ _ h]
+  cases x <;> rfl
+
+/-- the element loop of `EncodePackedBool`: one STORED byte per element (0x00 for `false` too), or a panic when they do not fit -/
+theorem bool_loop : ∀ (vs : List Bool) (s : EB), s.e_p.length < 2 ^ 62 → s.e_offset.toNat ≤ s.e_p.length →
+    (s.e_offset.toNat + vs.length ≤ s.e_p.length →
+      ∃ s', Go.forEachGo bindB boolBody vs s = .next s' ∧ s'.e_p = writeAt s.e_p s.e_offset.toNat (vs.map boolByte) ∧
+        s'.e_offset.toNat = s.e_offset.toNat + vs.length) ∧
+    (¬ s.e_offset.toNat + vs.length ≤ s.e_p.length → Go.forEachGo bindB boolBody vs s = .panic) := by
+  intro vs
+  induction vs with
+  | nil =>
+    intro s hp ho
+    exact ⟨fun _ => ⟨s, rfl, by simp [writeAt], by simp⟩, fun h => by simp at h; omega⟩
+  | cons x r ih =>
+    intro s hp ho
+    by_cases h1 : s.e_offset.toNat < s.e_p.length
+    · have hadv : (s.e_offset + 1#64).toNat = s.e_offset.toNat + 1 := by
+        rw [BitVec.toNat_add]; simp; omega
+      have hstep : boolBody (bindB s x) = .next { (bindB s x) with e_p := writeAt s.e_p s.e_offset.toNat [boolByte x], e_offset := s.e_offset + 1#64 } := by
+        cases x
+        · simp only [boolBody, bindB, Go.seq, Bool.false_eq_true, if_false, h1, if_true]
+          have := wr_bool s.e_p s.e_offset.toNat false h1
+          simp only [Bool.false_eq_true, if_false] at this
+          rw [this]
+        · simp only [boolBody, bindB, Go.seq, if_true, h1]
+          have := wr_bool s.e_p s.e_offset.toNat true h1
+          simp only [if_true] at this
+          rw [this]
+      have hlen1 : (writeAt s.e_p s.e_offset.toNat [boolByte x]).length = s.e_p.length := writeAt_length (by simp; omega)
+      obtain ⟨iok, ibad⟩ := ih { (bindB s x) with e_p := writeAt s.e_p s.e_offset.toNat [boolByte x], e_offset := s.e_offset + 1#64 }
+        (by simp only; rw [hlen1]; exact hp) (by simp only; rw [hlen1, hadv]; omega)
+      simp only [hlen1, hadv] at iok ibad
+      constructor
+      · intro hfit
+        simp only [List.length_cons] at hfit
+        obtain ⟨s', e1, e2, e3⟩ := iok (by omega)
+        refine ⟨s', ?_, ?_, ?_⟩
+        · simp only [Go.forEachGo, hstep]; exact e1
+        · rw [e2]
+          have := writeAt_writeAt s.e_p s.e_offset.toNat [boolByte x] (r.map boolByte) (by simp; omega)
+          simpa using this
+        · rw [e3]; simp only [List.length_cons]; omega
+      · intro hno
+        simp only [List.length_cons] at hno
+        simp only [Go.forEachGo, hstep]
+        exact ibad (by omega)
+    · constructor
+      · intro hfit; simp only [List.length_cons] at hfit; omega
+      · intro _
+        cases x <;> simp [Go.forEachGo, boolBody, bindB, Go.seq, h1]
+
+/-- **`(*Encoder).EncodePackedBool` of the source refines `Enc.step (.packedBool tag vs)`**: nothing for an empty list;
+    otherwise key, the element count as the length prefix, and one stored byte per element -/
+theorem EncodePackedBool_refines (fuel : Nat) (hf : 10 ≤ fuel) (p : Bytes) (off tag : BitVec 64) (vs : List Bool)
+    (hp : p.length < 2 ^ 62) (hoff : off.toNat ≤ p.length) (hvs : vs.length < 2 ^ 62) :
+    match ({ buf := p, off := off.toNat } : Enc).step (.packedBool tag.toNat vs) with
+    | .ok e' => ∃ s, Encoder_EncodePackedBool fuel p off tag vs = .ret () s ∧ s.e_p = e'.buf ∧ s.e_offset.toNat = e'.off
+    | .panic => Encoder_EncodePackedBool fuel p off tag vs = .panic
+    | .err _ => False := by
+  have hp63 : p.length < 2 ^ 63 := by omega
+  unfold Encoder_EncodePackedBool Encoder_EncodePackedBool.body
+  cases hvs0 : vs with
+  | nil => simp [Go.seq, Enc.step]
+  | cons x0 r0 =>
+    rw [← hvs0]
+    have hne : vs.isEmpty = false := by rw [hvs0]; rfl
+    obtain ⟨N, hNdef, hN⟩ : ∃ N : BitVec 64, N = BitVec.ofNat 64 vs.length ∧ N.toNat = vs.length := ⟨_, rfl, by simp; omega⟩
+    have hlen0 : (N == 0#64) = false := by
+      have hpos : 0 < vs.length := by rw [hvs0]; simp
+      have : N ≠ 0#64 := fun h => by rw [h] at hN; simp at hN; omega
+      simp [this]
+    simp only [Enc.step, hne, Bool.false_eq_true, if_false, EncOp.wire]
+    generalize hT : encTag tag.toNat wtLen = T
+    generalize hS : encVarint vs.length = L
+    have hwt : wtLen = (2#64).toNat := rfl
+    obtain ⟨s1ok, s1bad⟩ := stage (EncodeTag fuel (p.drop off.toNat) tag 2#64) (·.dest) p off T hp63 hoff
+      (fun h => by rw [← hT, hwt] at h ⊢; exact EncodeTag_ok fuel _ tag 2#64 hf h)
+      (fun h => by rw [← hT, hwt] at h; exact EncodeTag_short fuel _ tag 2#64 hf h)
+    simp only [Go.seq, Go.skip, hlen0, Bool.false_eq_true, if_false, hoff, if_true, ← hNdef]
+    by_cases h1 : off.toNat + T.length ≤ p.length
+    · obtain ⟨c1, hc1, hw1, ha1⟩ := s1ok h1
+      have hlen1 : (writeAt p off.toNat T).length = p.length := writeAt_length h1
+      obtain ⟨s2ok, s2bad⟩ := stage (EncodeVarint fuel ((writeAt p off.toNat T).drop (off + BitVec.ofNat 64 T.length).toNat) N)
+        (·.dest) (writeAt p off.toNat T) (off + BitVec.ofNat 64 T.length) L
+        (by rw [hlen1]; exact hp63) (by rw [hlen1, ha1]; exact h1)
+        (fun h => by rw [← hS] at h ⊢; have := EncodeVarint_ok fuel _ N hf (by rw [hN]; exact h); rw [hN] at this; exact this)
+        (fun h => by rw [← hS] at h; exact EncodeVarint_short fuel _ N hf (by rw [hN]; exact h))
+      simp only [hc1, hw1, hlen1, ha1, h1, if_true, ← hNdef]
+      by_cases h2 : off.toNat + T.length + L.length ≤ p.length
+      · obtain ⟨c2, hc2, hw2, ha2⟩ := s2ok (by rw [ha1, hlen1]; exact h2)
+        simp only [ha1] at hc2 hw2 ha2
+        simp only [hc2, hw2]
+        have hq2 : writeAt (writeAt p off.toNat T) (off.toNat + T.length) L = writeAt p off.toNat (T ++ L) := writeAt_writeAt p off.toNat _ _ h2
+        have hlen2 : (writeAt p off.toNat (T ++ L)).length = p.length := writeAt_length (by simp only [List.length_append]; omega)
+        obtain ⟨wok, wbad⟩ := bool_loop vs
+          ({ e_p := writeAt (writeAt p off.toNat T) (off.toNat + T.length) L, e_offset := off + BitVec.ofNat 64 T.length + BitVec.ofNat 64 L.length, tag := tag, vs := vs } : EB)
+          (by simp only; rw [hq2, hlen2]; exact hp) (by simp only; rw [hq2, hlen2, ha2]; exact h2)
+        simp only [hq2, hlen2, ha2] at wok wbad
+        have hoffl : off.toNat + T.length + L.length = off.toNat + (T ++ L).length := by simp only [List.length_append]; omega
+        by_cases h3 : off.toNat + T.length + L.length + vs.length ≤ p.length
+        · obtain ⟨s6, hl6, e6p, e6o⟩ := wok h3
+          have hst : ({ buf := p, off := off.toNat } : Enc).store (T ++ L ++ vs.map boolByte) =
+              .ok { buf := writeAt p off.toNat (T ++ L ++ vs.map boolByte), off := off.toNat + (T ++ L ++ vs.map boolByte).length } :=
+            store_ok p _ _ (by simp only [List.length_append, List.length_map]; omega)
+          simp only [hst, EncOut.ofRes]
+          unfold bindB boolBody at hl6
+          simp only [Go.forEach, hq2]
+          refine ⟨s6, ?_, ?_, ?_⟩
+          · first | erw [hl6] | simp only [hl6]
+          · rw [e6p, hoffl, writeAt_writeAt p off.toNat _ _ (by simp only [List.length_append, List.length_map]; omega)]
+          · rw [e6o]; simp only [List.length_append, List.length_map]; omega
+        · have hst : ({ buf := p, off := off.toNat } : Enc).store (T ++ L ++ vs.map boolByte) = .panic :=
+            store_panic p _ _ (by simp only [List.length_append, List.length_map]; omega)
+          simp only [hst, EncOut.ofRes]
+          have hb := wbad h3
+          unfold bindB boolBody at hb
+          simp only [Go.forEach, hq2]
+          first | erw [hb] | simp only [hb]
+      · have hst : ({ buf := p, off := off.toNat } : Enc).store (T ++ L ++ vs.map boolByte) = .panic :=
+          store_panic p _ _ (by simp only [List.length_append, List.length_map]; omega)
+        simp only [hst, EncOut.ofRes]
+        have hb := s2bad (by rw [ha1, hlen1]; exact h2)
+        rw [ha1] at hb
+        first | rw [hb] | erw [hb] | simp only [hb]
+    · have hst : ({ buf := p, off := off.toNat } : Enc).store (T ++ L ++ vs.map boolByte) = .panic :=
+        store_panic p _ _ (by simp only [List.length_append, List.length_map]; omega)
+      simp only [hst, EncOut.ofRes, s1bad h1]
+
 end Csproto.Bridge.PackedEncFuncs
